@@ -595,6 +595,10 @@ pub use traits::{Datelike, Timelike};
 #[doc(hidden)]
 pub use naive::__BenchYearFlags;
 
+#[cfg(all(unix, feature = "clock", feature = "__internal_verif"))]
+#[doc(hidden)]
+pub use offset::local::__verif;
+
 /// Serialization/Deserialization with serde
 ///
 /// The [`DateTime`] type has default implementations for (de)serializing to/from the [RFC 3339]
